@@ -5,14 +5,12 @@
 #ifndef PMAX
 #define PMAX 4
 #endif
-#define PUSHER 0
-#define POPPER 1
 typedef struct {
   uint64_t A; int sA; void* vA;                      /* the observed absolute index */
   int role;
   uint64_t lastH, lastL; void* lastcA; void* lastcM; /* snapshot: high, low, slot of A, slot of my index */
   /* what I have read (facts, not an order): pusher l0 <= low, h = high read; popper h0 <= high, l = low read */
-  int have_lo, have_hi, have_seen; uint64_t lo, hi; void* seen;
+  int have_lo, have_hi, have_seen, seen_ok; uint64_t lo, hi; void* seen;
   int claimed, wrote, cas_tried, cas_lost;
   void* in; /* the value I push */
 } ghost_t;
@@ -34,39 +32,9 @@ static struct { lockfree_ring_buffer_t rb; void* cells[1 << PMAX]; } RBS;
 #define HAVE_MY (G.role == PUSHER ? G.have_hi : G.have_lo)
 
 static int inv_A(void) { return RB_INV(CUR_H, CUR_L, (uint64_t)RB->size, G.A, G.sA, G.vA, SLOT(G.A)); }
-/* knowledge clauses: facts about what I read that the environment cannot invalidate (lemmas.c: stable under every action) */
-static int know(void) {
-  uint64_t H = CUR_H, L = CUR_L, size = RB->size;
-  if (G.have_lo && G.role == PUSHER && !(G.lo <= L)) return 0;
-  if (G.have_hi && G.role == PUSHER && !(G.hi <= H)) return 0;
-  if (G.have_hi && G.role == POPPER && !(G.hi <= H)) return 0;
-  if (G.have_lo && G.role == POPPER && !(G.lo <= L)) return 0;
-  if (G.role == PUSHER) {
-    if (!G.claimed && G.have_hi && G.have_lo && G.have_seen && G.seen == 0 && G.hi - G.lo < size && G.lo <= G.hi && H == G.hi) {
-      /* I saw the slot of h empty with room left: while high is still h the previous occupant h - size is popped and cleared */
-      if (SLOT(G.hi) != 0) return 0;
-      if (G.A + size == G.hi && G.sA != S_FREE) return 0;
-    }
-    if (G.claimed && !G.wrote) { /* my claimed, unwritten index */
-      if (!(H > G.hi) || SLOT(G.hi) != 0) return 0;
-      if (G.A == G.hi && G.sA != S_CW) return 0;
-      if (G.A + size == G.hi && G.sA != S_FREE) return 0;
-      if (!(L <= G.hi)) return 0; /* an unwritten index cannot be popped */
-    }
-  } else {
-    if (!G.claimed && G.have_hi && G.have_lo && G.have_seen && G.seen != 0 && G.hi > G.lo && L == G.lo) {
-      /* I saw a value in the slot of l with l < h0: while low is still l that value is the one pushed for index l */
-      if (SLOT(G.lo) != G.seen) return 0;
-      if (G.A == G.lo && !(G.sA == S_FULL && G.vA == G.seen)) return 0;
-    }
-    if (G.claimed && !G.wrote) { /* my claimed, uncleared index */
-      if (!(L > G.lo) || SLOT(G.lo) != G.seen) return 0;
-      if (G.A == G.lo && !(G.sA == S_CR && G.vA == G.seen)) return 0;
-      if (!(H <= G.lo + size)) return 0; /* the slot cannot be claimed again before I clear it */
-    }
-  }
-  return 1;
-}
+static rb_me_t me_now(void) { rb_me_t m; m.role = G.role; m.have_lo = G.have_lo; m.have_hi = G.have_hi; m.have_seen = G.have_seen; m.seen_ok = G.seen_ok;
+  m.claimed = G.claimed; m.wrote = G.wrote; m.lo = G.lo; m.hi = G.hi; m.seen = G.seen; return m; }
+static int know(void) { return rb_know(me_now(), CUR_H, CUR_L, (uint64_t)RB->size, G.A, G.sA, G.vA, HAVE_MY ? SLOT(MYIDX) : 0); }
 static void spec_snap(void) { G.lastH = CUR_H; G.lastL = CUR_L; G.lastcA = SLOT(G.A); G.lastcM = HAVE_MY ? SLOT(MYIDX) : 0; }
 
 static void spec_step(int site) {
@@ -74,7 +42,7 @@ static void spec_step(int site) {
   if (H != G.lastH) { /* CLAIM_W */
     VASSERT(G.role == PUSHER && !G.claimed && H == G.lastH + 1 && L == G.lastL, "G: high moves only by a pusher's CAS, by one");
     VASSERT(G.have_hi && G.lastH == G.hi, "G: high moves only by my CAS from the value I read");
-    VASSERT(G.have_seen && G.seen == 0, "G: claim a slot only after seeing it empty");
+    VASSERT(G.have_seen && G.seen_ok && G.seen == 0, "G: claim a slot only after seeing it empty (slot read after low and high)");
     VASSERT(G.have_lo && G.lo <= G.hi && G.hi - G.lo < size, "G: claim only with room left (high - low < size for a low value read earlier)");
     G.claimed = 1;
     if (G.A == G.hi) { VASSERT(G.sA == S_FREE, "G: the claimed index was free"); G.sA = S_CW; }
@@ -82,7 +50,7 @@ static void spec_step(int site) {
   } else if (L != G.lastL) { /* CLAIM_R */
     VASSERT(G.role == POPPER && !G.claimed && L == G.lastL + 1, "G: low moves only by a popper's CAS, by one");
     VASSERT(G.have_lo && G.lastL == G.lo, "G: low moves only by my CAS from the value I read");
-    VASSERT(G.have_seen && G.seen != 0 && G.have_hi && G.hi > G.lo, "G: claim for reading only a non-empty slot below a high value read earlier");
+    VASSERT(G.have_seen && G.seen_ok && G.seen != 0 && G.have_hi && G.hi > G.lo, "G: claim for reading only a non-empty slot below a high value read earlier (slot read after high and low)");
     G.claimed = 1;
     if (G.A == G.lo) { VASSERT(G.sA == S_FULL && G.vA == G.seen, "G: the claimed index holds exactly the value I read"); G.sA = S_CR; }
   }
@@ -123,11 +91,12 @@ static void spec_read(int site, void* addr) {
   else if (addr == (void*)&RB->high && !G.have_hi) { G.have_hi = 1; G.hi = CUR_H; }
   else if (addr == (void*)&RB->high && G.role == PUSHER && G.have_hi && !G.claimed) { G.cas_tried = 1; G.cas_lost = (CUR_H != G.hi); }
   else if (addr == (void*)&RB->low && G.role == POPPER && G.have_lo && !G.claimed) { G.cas_tried = 1; G.cas_lost = (CUR_L != G.lo); }
-  else if (HAVE_MY && addr == (void*)&SLOT(MYIDX) && !G.have_seen && !G.claimed) { G.have_seen = 1; G.seen = SLOT(MYIDX); }
+  else if (HAVE_MY && addr == (void*)&SLOT(MYIDX) && !G.have_seen && !G.claimed) { G.have_seen = 1; G.seen = SLOT(MYIDX);
+    G.seen_ok = G.have_lo && G.have_hi && (G.role == PUSHER ? CUR_H == G.hi : CUR_L == G.lo); }
 }
 #include "verif_point.inc"
 
-static int clean(void) { return !G.have_lo && !G.have_hi && !G.have_seen && !G.claimed && !G.wrote && !G.cas_tried && !G.cas_lost; }
+static int clean(void) { return !G.have_lo && !G.have_hi && !G.have_seen && !G.seen_ok && !G.claimed && !G.wrote && !G.cas_tried && !G.cas_lost; }
 static int size_ok(void) { return RB->size >= 2 && (RB->size & (RB->size - 1)) == 0 && RB->power_of_2_mod == RB->size - 1; }
 static int PRE_op(int role) { return G.role == role && clean() && size_ok() && inv_A() && G.lastH == CUR_H && G.lastL == CUR_L && G.lastcA == SLOT(G.A); }
 /* trypush: success = CLAIM_W then WRITE of my value; failure = no effect, and only because the slot was seen occupied, the
@@ -162,7 +131,7 @@ static void init_any(int role) {
   CUR_H = verif_u64(); CUR_L = verif_u64();
   G.A = verif_u64(); G.sA = verif_int(); G.vA = (void*)verif_u64();
   SLOT(G.A) = (void*)verif_u64();
-  G.role = role; G.have_lo = G.have_hi = G.have_seen = G.claimed = G.wrote = G.cas_tried = G.cas_lost = 0; G.lo = G.hi = 0; G.seen = 0;
+  G.role = role; G.have_lo = G.have_hi = G.have_seen = G.seen_ok = G.claimed = G.wrote = G.cas_tried = G.cas_lost = 0; G.lo = G.hi = 0; G.seen = 0;
   G.in = (void*)verif_u64();
   spec_snap();
 }
